@@ -114,6 +114,11 @@ def check(case, ctx):
     spec = specgen.normalise(case["spec"], ctx.flags | {"no-allopts"}, ctx)
     ref = Ref(spec)
     G = build(spec)
+    if "no-coalesce-value-failure" in ctx.flags:
+        if any("coalesce-absorbed-value-failure" in ref.run(o).labels for o, _ in case["steps"]):
+            ctx.exclude("no-coalesce-value-failure")
+            ctx.done(case, False, ["excluded-K6"])
+            return
     cacheable = {d["name"] for d in spec["defs"] if not d.get("nocache")}
     owner = {}
     for d in spec["defs"]:
